@@ -17,16 +17,16 @@ ThreadAct(e) ==
     LET t == e.t IN
     CASE e.op = "start"        -> Start(t)
       [] e.op = "write"        -> CWrite(t)
-      [] e.op = "ready?"       -> WCheck(t) \/ WFinal(t) \/ DExpired(t)
-      [] e.op = "lock"         -> SCondIn(t) \/ SReacq(t) \/ SNCondIn(t)
+      [] e.op = "ready?"       -> WCheck(t) \/ WFinal(t) \/ DExpired(t) \/ SPrecheck(t) \/ SRecheck(t)
+      [] e.op = "lock"         -> SCondIn(t) \/ SReacq(t) \/ SNCondIn(t) \/ DNCondIn(t)
       [] e.op = "trylock"      -> STryLock(t)
       [] e.op = "cond_wait"    -> SWait(t)
       [] e.op = "cond_blocked" -> IF e.wake = "timeout" /\ t \in Clients THEN TimeoutWake(t) ELSE SBlocked(t)
-      [] e.op = "unlock:cond"  -> SCondOut1(t) \/ SCondOut2(t) \/ SNCondOut(t)
+      [] e.op = "unlock:cond"  -> SCondOut1(t) \/ SCondOut2(t) \/ SNCondOut(t) \/ DNCondOut(t)
       [] e.op = "poll"         -> IF e.wake = "timeout" /\ t \in Clients THEN TimeoutWake(t) ELSE SPoll(t)
       [] e.op = "read"         -> SHdr(t) \/ SBody(t)
-      [] e.op = "unlock:recv"  -> SRelease(t)
-      [] e.op = "notify_all"   -> SNotify(t)
+      [] e.op = "unlock:recv"  -> SRelease(t) \/ SGiveUp(t)
+      [] e.op = "notify_all"   -> SNotify(t) \/ DNotify(t)
       [] e.op = "dispatch"     -> SDispatch(t)
       [] e.op = "set_ready"    -> DPublish(t)
       [] e.op = "sleep"        -> BSleep(t)
